@@ -201,3 +201,30 @@ fn a_wakeup_issued_between_two_waits_cuts_the_next_one_short() {
     th.join().unwrap();
     assert!(t.elapsed() < Duration::from_secs(2), "run() slept through a wakeup() issued from a woken iteration ({:?})", t.elapsed());
 }
+
+/// round 9 (seed C11-5): a stop request that no run() was there to see (issued before run(), from a callback of a plain
+/// dispatch(), or a second stop in the iteration that already ends the run) must not end the NEXT run(): run() never
+/// returns Ok without a stop request made while it runs.
+#[test]
+fn a_stale_stop_does_not_end_the_next_run() {
+    for variant in 0..3u8 {
+        let mut el: EventLoop<u32> = EventLoop::try_new().unwrap();
+        let sig = el.get_signal();
+        match variant {
+            0 => sig.stop(),                                   // nobody is running
+            1 => {                                             // requested from an idle of a plain dispatch()
+                let s2 = sig.clone();
+                el.handle().insert_idle(move |_| s2.stop());
+                el.dispatch(Some(Duration::ZERO), &mut 0).unwrap();
+            }
+            _ => {                                             // a run that was stopped twice in its last iteration
+                let s2 = sig.clone();
+                el.run(Some(Duration::from_millis(1)), &mut 0, move |_| { s2.stop(); s2.stop(); }).unwrap();
+            }
+        }
+        let mut iterations = 0u32;
+        let s3 = sig.clone();
+        el.run(Some(Duration::from_millis(1)), &mut iterations, move |it| { *it += 1; if *it == 3 { s3.stop(); } }).unwrap();
+        assert_eq!(iterations, 3, "variant {}: run() ended after {} iteration(s) on a stop request that predates it", variant, iterations);
+    }
+}
